@@ -3,6 +3,7 @@ package main
 import (
 	"encoding/json"
 	"fmt"
+	"strings"
 	"time"
 
 	"github.com/crillab/gophersat/solver"
@@ -240,6 +241,34 @@ func runOptCase(o *Oracle, d json.RawMessage, oc *Outcome) {
 func checkStream(o *Oracle, oc *Outcome, entry string, r optRun, n int, sem []Lin, coefs, lits []int) {
 	if !r.closed {
 		oc.Fail("spec", "channel-closed", entry, "result channel not closed on return")
+	}
+	// the observed sequence (values in order, close seen by the consumer, returned value) must be
+	// a trace of the verified protocol model GS.Chan.producerSystem (for any capacity a send
+	// immediately followed by its receive is a valid linearisation)
+	{
+		id := func(x solver.Result) string { return fmt.Sprintf("%v/%d/%v", x.Status, x.Weight, x.Model) }
+		ids := map[string]int{}
+		var evs []string
+		for _, x := range r.stream {
+			k, ok := ids[id(x)]
+			if !ok {
+				k = len(ids) + 1
+				ids[id(x)] = k
+			}
+			evs = append(evs, fmt.Sprintf("1 %d", k), fmt.Sprintf("2 %d", k))
+		}
+		if r.closed {
+			evs = append(evs, "3", "4")
+		}
+		if k, ok := ids[id(r.res)]; ok {
+			evs = append(evs, fmt.Sprintf("5 %d", k))
+		} else {
+			evs = append(evs, fmt.Sprintf("5 %d", len(ids)+1))
+		}
+		oc.Corr++
+		if a := o.Ask("chantrace 0 | " + strings.Join(evs, " ; ")); a != "1" {
+			oc.Fail("corr", "channel-protocol-model", entry, "the observed event sequence [%s] is not a trace of GS.Chan.producerSystem (%s)", strings.Join(evs, " ; "), a)
+		}
 	}
 	if len(r.stream) == 0 {
 		oc.Fail("spec", "stream-last-is-result", entry, "no result was sent on the channel")
